@@ -11,20 +11,21 @@
    - float parsers: only the wrapper logic over an abstract libc result (tofloat_exact);
      values never enter Coq.
    - path functions: path_no_overflow and path_terminated in full (all inputs, all sizes,
-     reads of the output buffer included).  path_algebra is proved only in part
-     (path_algebra_partial: isabs, basename and dirname against "split at the last
-     separator" for EVERY NUL-free input and every size, success exactly when the result
-     fits; join likewise: p1, exactly one separator, p2 without its leading '/'; normpath
-     on inputs without two adjacent dots is the identity up to the "./" prefix; abspath of
-     an absolute path is the path).  The ".." resolution of normpath (and abspath of a
-     relative path, which is join + normpath) against the component algebra on the plain
-     class is checked by the differential run + the independent monitor only.
+     reads of the output buffer included).  path_algebra in full: normpath equals the
+     component algebra (names, "..", optional leading "/" or "./"; ".." removes the preceding
+     name, a leading "../" chain is kept, "./" for the empty result, above the root is an
+     error) for every size, abspath of a relative path is normpath of join(cwd, path) and
+     hence the algebra on "/" cwd-components "/" path-components; path_algebra_leaf: isabs,
+     basename, dirname, join, normpath without adjacent dots, abspath of absolute paths
+     against their references for EVERY NUL-free input.  The class of path_algebra is wider
+     than the plain class of the design: '\' also separates, names may contain any bytes
+     other than separators, NUL and two adjacent dots.
    - strip/startswith/endswith/find/count: full statements against list specifications
      (count: the greedy left-to-right count of non-overlapping occurrences, which is unique).
    - hex round trip and rejection, endian swap involutions: full. *)
 From MV Require Import C20.Model C20.GenEq gen.Params_C20
   C20.ProofsNpo2 C20.ProofsStr C20.ProofsCount C20.ProofsParse C20.ProofsPath C20.ProofsHex
-  C20.ProofsAlg C20.ProofsAlg2 C20.ProofsAlg3 C20.ProofsAlg4.
+  C20.ProofsAlg C20.ProofsAlg2 C20.ProofsAlg3 C20.ProofsAlg4 C20.ProofsNorm C20.ProofsNorm2 C20.ProofsNorm3.
 
 (* ---------------- leaf translator obligations (DESIGN.md 4.4) ---------------- *)
 Theorem gen_npo2_eq : forall x : N, gen_npo2 x = model_npo2 x.
@@ -34,6 +35,10 @@ Print Assumptions gen_npo2_eq.
 Theorem gen_hex_to_byte_eq : forall c : Z, gen_hex_to_byte c = hex_to_byte c.
 Proof. exact gen_hex_to_byte_eq_l. Qed.
 Print Assumptions gen_hex_to_byte_eq.
+
+Theorem gen_isabs_eq : forall p : list Z, gen_isabs p = if isabs p then 1%Z else 0%Z.
+Proof. exact gen_isabs_eq_l. Qed.
+Print Assumptions gen_isabs_eq.
 
 (* ---------------- next_pow_of_2 ---------------- *)
 (* On 1 <= x <= 2^63 the result is a power of two, not below x, and the least such. *)
@@ -107,15 +112,55 @@ Theorem path_terminated : forall c size init,
 Proof. exact path_terminated_l. Qed.
 Print Assumptions path_terminated.
 
-(* FULL STATEMENT (path_algebra, not proved in Coq in full): on plain paths (optional "/" or "./"
-   prefix, components that are names or "..", single "/" separators, optional trailing "/")
-   join / dirname / basename / normpath / abspath return exactly the result of the component
-   algebra (resolve ".." against the preceding name, keep a leading "../" chain, "./" for the
-   empty result, error above the root), and fail only when the buffer is too small.
-   Proved part (stronger than the plain class where it applies: every NUL-free input):
-   isabs, basename, dirname, join; normpath without ".."; abspath of absolute paths.
-   ".." resolution in normpath / relative abspath: differential run + monitor only. *)
-Theorem path_algebra_partial :
+(* path_algebra, part 1: normpath and abspath against the component algebra.
+   A path is  pre ++ render cs : pre is "", "./" (".\") or "/", cs a list of components (a name or
+   "..") each followed by one separator, the last one optionally without (wf_comps).  [resolve]
+   is the reference: ".." removes the preceding name, is kept while the stack is empty or holds
+   only "..", and is an error at the root of an absolute path; the result is rendered with the
+   separators the kept components had, "./" when nothing is left. *)
+Theorem path_algebra :
+  (* normpath, every size: error above the root; otherwise success exactly when the input
+     (not only the result) fits, and then the result is the algebra's *)
+  (forall pre abs cs size m,
+     pre_ok pre abs -> wf_comps cs -> ok m size -> nonzero (pre ++ render cs) ->
+     let p := pre ++ render cs in
+     match resolve abs [] cs with
+     | None => fst (normpath p size m) <> 0%Z
+     | Some k =>
+         let res := out_of abs k in
+         (fst (normpath p size m) = 0%Z <-> (zlen p < size)%Z /\ (res = [] -> (2 < size)%Z)) /\
+         (fst (normpath p size m) = 0%Z ->
+            cstr (cells (snd (normpath p size m))) = if (length res =? 0)%nat then [46%Z; 47%Z] else res)
+     end) /\
+  (* abspath of a relative path = normpath of join(cwd, path), for EVERY NUL-free cwd and path *)
+  (forall cwd p size junk m,
+     ok m size -> zlen junk = MAX_PATH -> nonzero cwd -> nonzero p -> isabs p = false -> (1 < size)%Z ->
+     let j := join_ref cwd p in
+     let joins := cwd <> [] /\ p <> [] /\ p <> [47%Z] /\ (zlen j < MAX_PATH)%Z in
+     (~ joins -> fst (abspath cwd p size junk m) <> 0%Z) /\
+     (joins -> fst (abspath cwd p size junk m) = fst (normpath j size m) /\
+               cells (snd (abspath cwd p size junk m)) = cells (snd (normpath j size m)))) /\
+  (* hence: cwd = "/" comps1 c, path = comps2 (relative)  =>  the algebra on "/" comps1 c "/" comps2 *)
+  (forall cs1 c cs2 size junk m,
+     ok m size -> zlen junk = MAX_PATH -> (1 < size)%Z ->
+     kinv cs1 -> comp_ok c -> wf_comps cs2 -> cs2 <> [] ->
+     let cwd := [47%Z] ++ render cs1 ++ text c in
+     let p := render cs2 in
+     let cs := cs1 ++ (c, [47%Z]) :: cs2 in
+     nonzero cwd -> nonzero p -> isabs p = false -> (zlen ([47%Z] ++ render cs) < MAX_PATH)%Z ->
+     match resolve true [] cs with
+     | None => fst (abspath cwd p size junk m) <> 0%Z
+     | Some k =>
+         (fst (abspath cwd p size junk m) = 0%Z <-> (zlen ([47%Z] ++ render cs) < size)%Z) /\
+         (fst (abspath cwd p size junk m) = 0%Z ->
+            cstr (cells (snd (abspath cwd p size junk m))) = out_of true k)
+     end).
+Proof. exact (conj normpath_algebra_l (conj abspath_rel_l abspath_plain_l)). Qed.
+Print Assumptions path_algebra.
+
+(* path_algebra, part 2: the functions without ".." logic against their references, for every
+   NUL-free input and every size (success exactly when the result fits) *)
+Theorem path_algebra_leaf :
   (* isabs *)
   (forall p, isabs p = true <->
      ((1 < zlen p)%Z /\ nth 0 p 0%Z = 47%Z) \/
@@ -151,7 +196,7 @@ Proof.
   exact (conj isabs_spec_l (conj base_of_ref (conj basename_algebra_l (conj dirname_algebra_l
          (conj join_algebra_l (conj normpath_nodd_l abspath_abs_l)))))).
 Qed.
-Print Assumptions path_algebra_partial.
+Print Assumptions path_algebra_leaf.
 
 (* ---------------- strip / startswith / endswith / find / count ---------------- *)
 Theorem lstrip_idx_spec : forall s,
